@@ -124,9 +124,9 @@ Definition chk_ctor (f : gfile) (tops : list top) (ord : list nat) (o : robs (li
   match view_of (residues_of f), tops_of tops ord with
   | Ok v, Ok ts =>
     match load_all v (sys_init v) ts, o with
-    | Ok st, OOk _ => cmp_list f st (sys_iter v st) o
+    | Ok st, _ => cmp_list f st (sys_iter v st) o      (* built; the iteration itself may raise *)
     | Err e, OErr c => if err_code e =? c then AGREE else ERRMISMATCH
-    | _, _ => ERRMISMATCH
+    | Err _, OOk _ => ERRMISMATCH
     end
   | _, _ => 9
   end.
